@@ -105,6 +105,7 @@ fn run<W: World>(w: W, a: &Args, digest_only: bool) -> i32 {
         known_findings: format!("{}/known-findings.txt", verif_root()),
         digest_only,
         merge_part: a.merge_part.clone(),
+        seqfind: a.cmd == "seqfind",
         max_wall_s: match a.tier {
             Tier::Quick => 600,
             Tier::Thorough => 3 * 3600,
@@ -172,6 +173,14 @@ fn main() {
         "digest" => {
             let prop = a.prop.clone().unwrap_or_else(|| usage());
             dispatch(&prop, &a, true)
+        }
+        "seqfind" => {
+            let prop = a.prop.clone().unwrap_or_else(|| usage());
+            let mut b = a;
+            b.workers = 1;
+            b.evidence = None;
+            let code = dispatch(&prop, &b, false);
+            std::process::exit(code)
         }
         "locate-abort" => {
             // The batch terminated abnormally (abort, stack overflow, allocation failure): bisect the run
